@@ -122,6 +122,9 @@ type c14Case struct {
 	Recv    []c14Recv
 	Send    []c14Send
 	Choices []int
+	// Limit: MaxInFlightTopicsBySender of the buffer; 0 = far away (1000). Otherwise the number of topics the busiest
+	// sender uses, so that this sender is exactly at - not beyond - the documented limit.
+	Limit int
 	// NoWindow: generator switch of known finding L18 - keeps receive calls out of the window
 	// between the "started?" test and the store while a Send on the same topic is in flight.
 	NoWindow bool
@@ -145,6 +148,17 @@ func genC14(t *rapid.T) c14Case {
 		c.Send = append(c.Send, c14Send{Topic: rapid.IntRange(0, ntopics-1).Draw(t, "stopic"), Times: rapid.IntRange(1, 2).Draw(t, "times")})
 	}
 	c.Choices = rapid.SliceOfN(rapid.IntRange(0, 7), 0, 150).Draw(t, "choices")
+	if rapid.IntRange(0, 2).Draw(t, "atLimit") == 0 {
+		for _, r := range c.Recv {
+			d := map[int]bool{}
+			for _, tp := range r.Topics {
+				d[tp] = true
+			}
+			if len(d) > c.Limit {
+				c.Limit = len(d)
+			}
+		}
+	}
 	return c
 }
 
@@ -197,7 +211,11 @@ func c14Execute(c c14Case, choices []int) *c14Result {
 
 	h := &c14Handler{}
 	tick := make(chan time.Time)
-	box := &msg.Box{Logger: &sim.Logger{}, MaxInFlightTopicsBySender: 1000, GCSweep: time.Second, GCExpire: 10 * time.Second,
+	limit := 1000
+	if c.Limit > 0 {
+		limit = c.Limit
+	}
+	box := &msg.Box{Logger: &sim.Logger{}, MaxInFlightTopicsBySender: limit, GCSweep: time.Second, GCExpire: 10 * time.Second,
 		NewTicker:      func(time.Duration) *time.Ticker { return &time.Ticker{C: tick} },
 		MessageHandler: h,
 		ForwardSend:    func(uint8, []byte, []byte, ...tss.UniversalID) { coYield("forward-send") },
